@@ -117,7 +117,7 @@ static std::vector< PL::Cfg > cfg_product( std::vector< int > fams, std::vector<
 #define CORE_OPS3 "SEQ1", "SOR1", "SEQ3", "SOR3", "STAR2", "PLUS2", "OPT2", "AT2", "NOT_AT2"
 #define CONV_OPS "IF_THEN_ELSE", "IF_MUST", "OPT_MUST", "IF_MUST_ELSE", "MUST", "MUST2", "STAR_MUST", "LIST", "LIST_MUST", "LIST_TAIL", "MINUS", "REMATCH", "PAD", "PAD_OPT", "PARTIAL1", "PARTIAL", "STAR_PARTIAL1", "STAR_PARTIAL", "STRICT1", "STRICT", "STAR_STRICT1", "STAR_STRICT", "UNTIL1", "UNTIL2"
 #define CONV_OPS3 "IF_MUST3", "OPT_MUST3", "STAR_MUST3", "LIST3", "LIST_MUST3", "LIST_TAIL3", "REMATCH3", "PAD3", "PARTIAL3", "STAR_PARTIAL3", "STRICT3", "STAR_STRICT3", "UNTIL3"
-#define REP_OPS "REP0", "REP1", "REP2", "REP3", "REP4", "REP2_2", "REP_MIN0", "REP_MIN1", "REP_MIN2", "REP_MIN3", "REP_MIN4", "REP_MIN2_2", "REP_MAX0", "REP_MAX1", "REP_MAX2", "REP_MAX3", "REP_MAX4", "REP_OPT1", "REP_OPT2", "REP_OPT3", "REP_OPT4", "REP_OPT2_2", "RMM00", "RMM01", "RMM02", "RMM03", "RMM04", "RMM11", "RMM12", "RMM13", "RMM14", "RMM22", "RMM23", "RMM24", "RMM33", "RMM34", "RMM44", "RMM12_2"
+#define REP_OPS "REP0", "REP1", "REP2", "REP3", "REP4", "REP2_2", "REP_MIN0", "REP_MIN1", "REP_MIN2", "REP_MIN3", "REP_MIN4", "REP_MIN2_2", "REP_MIN1_2", "REP_MIN0_2", "REP_MAX0", "REP_MAX1", "REP_MAX2", "REP_MAX3", "REP_MAX4", "REP_OPT1", "REP_OPT2", "REP_OPT3", "REP_OPT4", "REP_OPT2_2", "RMM00", "RMM01", "RMM02", "RMM03", "RMM04", "RMM11", "RMM12", "RMM13", "RMM14", "RMM22", "RMM23", "RMM24", "RMM33", "RMM34", "RMM44", "RMM12_2"
 #define EXC_OPS "RAISE_OF", "RAISE_MSG", "TC_RF", "TC_ANY_RF", "TC_STD_RF", "TC_TYPE_RF", "TC_RN", "TC_ANY_RN", "TC_STD_RN", "TC_TYPE_RN", "TC_RF2"
 #define MUST_OPS "MUST", "MUST2", "IF_MUST", "OPT_MUST", "IF_MUST_ELSE", "STAR_MUST", "LIST_MUST"
 
